@@ -12,7 +12,10 @@ import (
 	pow1 "github.com/wollac/iota-crypto-demo/pkg/pow"
 	pow2 "github.com/wollac/iota-crypto-demo/pkg/pow/v2"
 
+	"golang.org/x/crypto/blake2b"
+
 	"verif/sim/kernel"
+	"verif/sim/ref"
 )
 
 // Crowd runs (auto-instrumented flavour only): several Mine calls of one process run CONCURRENTLY — the way a node mines
@@ -39,7 +42,14 @@ type crowdCall struct {
 func (w *world) simulateCrowd(choices []int) {
 	cfg := w.cfg
 	base := kernel.Census()
-	st := newStub(cfg.Stub, cfg.craftCtx()) // no digest check: one oracle, nobody ever finds
+	// one oracle under which nobody ever finds — except a lane whose input is not (digest of ITS call's data, nonce, 000):
+	// such a lane hashes another message than the one its call is mining, and the oracle lets it qualify (see SimInput)
+	st := newStub(cfg.Stub, cfg.craftCtx())
+	st.special[wrongInputNonce] = make([]int8, ref.HashLen)
+	for i := 0; i < cfg.Crowd; i++ {
+		d := blake2b.Sum256(cfg.callData(i))
+		st.digests = append(st.digests, ref.B1T6(d[:]))
+	}
 	curStub.Store(st)
 	kernel.EnableAuto()
 	kernel.SetSelectSeed(cfg.Strat.Seed)
@@ -48,13 +58,20 @@ func (w *world) simulateCrowd(choices []int) {
 	k.Journal = w.journal
 	defer k.Unbind()
 
-	data := cfg.data()
+	// one Worker object for all calls, or one per call
+	var shared1 *pow1.Worker
+	var shared2 *pow2.Worker
+	if cfg.SharedWorker {
+		shared1, shared2 = pow1.New(cfg.Workers), pow2.New(cfg.Workers)
+		w.probes["concurrent_calls_on_one_worker_object"] = 1
+	}
 	calls := make([]*crowdCall, cfg.Crowd)
 	for i := range calls {
 		c := &crowdCall{res: make(chan mineRet, 1)}
 		c.ctx, c.cancel = context.WithCancel(context.Background())
 		calls[i] = c
 		idx := i
+		data := cfg.callData(i)
 		go func() {
 			defer func() {
 				if r := recover(); r != nil {
@@ -65,9 +82,14 @@ func (w *world) simulateCrowd(choices []int) {
 			kernel.Yield("caller.start", Caller)
 			var n uint64
 			var err error
-			if cfg.Version == 1 {
+			switch {
+			case cfg.Version == 1 && shared1 != nil:
+				n, err = shared1.Mine(c.ctx, data, cfg.targetF())
+			case cfg.Version == 1:
 				n, err = pow1.New(cfg.Workers).Mine(c.ctx, data, cfg.targetF())
-			} else {
+			case shared2 != nil:
+				n, err = shared2.Mine(c.ctx, data, cfg.TargetBits)
+			default:
 				n, err = pow2.New(cfg.Workers).Mine(c.ctx, data, cfg.TargetBits)
 			}
 			c.res <- mineRet{nonce: n, err: err}
@@ -233,7 +255,7 @@ func (w *world) simulateCrowd(choices []int) {
 		case c.ret.panic != "":
 			w.violate("panic:"+firstLine(c.ret.panic), c.ret.panic, nil)
 		case c.ret.err == nil:
-			w.violate("nonce-below-target", fmt.Sprintf("call %d returned nonce %d although no nonce qualifies under the run's hash oracle", i, c.ret.nonce), nil)
+			w.violate("nonce-below-target", fmt.Sprintf("call %d of %d concurrent calls (one Worker object for all: %v) returned nonce %d although no nonce qualifies for its message under the run's hash oracle (a lane qualifies only if what it hashed was not its own call's digest and nonce)", i, len(calls), cfg.SharedWorker, c.ret.nonce), nil)
 		case !c.cancelled:
 			w.violate("cancelled-without-cancel", fmt.Sprintf("call %d returned %q although its own context had not been cancelled", i, c.ret.err), nil)
 		}
